@@ -47,7 +47,7 @@ Definition acceptsb (o : opts) (dim topo : Z) (m : meshfile) : bool :=
   (match o_mesh o with MPoly => true | MTet => topo =? TopoType_Tetrahedral | MHex => topo =? TopoType_Hexahedral end) &&
   topo_reqb topo 3 4 (m_faces m) && topo_reqb topo 4 6 (m_cells m) &&
   forallb (fun hs => stored_as_given (mesh_add_face o (m_edges m) hs) hs) (m_faces m) &&
-  forallb (fun hs => stored_as_given (mesh_add_cell o (m_faces m) hs) hs) (m_cells m).
+  forallb (fun hs => stored_as_given (mesh_add_cell o (m_edges m) (m_faces m) hs) hs) (m_cells m).
 
 Lemma stored_as_given_eq r hs : stored_as_given r hs = true -> r = Ret (Some hs).
 Proof.
